@@ -26,6 +26,7 @@ CHECK = {
       T('str5', 'base', 'keys=str', 'nkeys=5'),
       T('str4-asan', 'asan', 'keys=str', 'nkeys=4'),
       T('probe5', 'base', 'keys=probe', 'vals=probe', 'nkeys=5'),
+      T('intprobe5', 'base', 'keys=int', 'vals=probe', 'nkeys=5'), T('probeint4-asan', 'asan', 'keys=probe', 'vals=int', 'nkeys=4'),
       T('ladder', 'base', 'mode=ladder', 'ladder_n=120'),
       T('ladder-asan', 'asan', 'mode=ladder', 'ladder_n=60'),
     ],
@@ -35,6 +36,7 @@ CHECK = {
       T('str7', 'base', 'keys=str', 'nkeys=7'),
       T('str5-asan', 'asan', 'keys=str', 'nkeys=5'),
       T('probe7', 'base', 'keys=probe', 'vals=probe', 'nkeys=7'),
+      T('intprobe7', 'base', 'keys=int', 'vals=probe', 'nkeys=7'), T('probeint6-asan', 'asan', 'keys=probe', 'vals=int', 'nkeys=6'),
       T('ladder', 'base', 'mode=ladder', 'ladder_n=220'),
       T('ladder-asan', 'asan', 'mode=ladder', 'ladder_n=120'),
     ],
